@@ -129,12 +129,13 @@ inductive Cmd where
   | simplifyParents (x : Nat)
   /-- `jj bookmark set <name> -r X --allow-backwards` / `jj tag set` (moves refs, rewrites nothing) -/
   | refSet (x : Nat)
-  /-- `jj commit -m <fresh>`: rewrites `@` — **no** `check_rewritable` call in commands/commit.rs -/
+  /-- `jj commit -m <fresh>`: rewrites `@`; commands/commit.rs `cmd_commit` calls
+      `check_rewritable([commit.id()])` on the working-copy commit (since /repo edbccd1) -/
   | commitWc
 deriving Repr, DecidableEq
 
 /-- The set each command passes to `check_rewritable` (`wc` = id of `@`). -/
-def checked (g : Graph) (_wc : Nat) : Cmd → List Nat
+def checked (g : Graph) (wc : Nat) : Cmd → List Nat
   | .describe ts => ts
   | .abandon ts => ts
   | .rebaseS s _ => [s]
@@ -157,12 +158,13 @@ def checked (g : Graph) (_wc : Nat) : Cmd → List Nat
   | .parallelize ts => ts.filter (fun t => (parentsOf g t).any (fun p => decide (p ∈ ts)))
   | .simplifyParents x => [x]
   | .refSet _ => []
-  | .commitWc => []
+  | .commitWc => [wc]
 
-/-- Commands that rewrite / abandon the working-copy commit without asking `check_rewritable`
-(commit: commands/commit.rs; new / edit: `MutableRepo::maybe_abandon_wc_commit`). -/
+/-- Commands that abandon the working-copy commit without asking `check_rewritable`
+(new / edit: `MutableRepo::maybe_abandon_wc_commit`).  `jj commit` used to be here as well; it is
+guarded since /repo edbccd1. -/
 def unguarded : Cmd → Bool
-  | .commitWc | .newOn _ | .edit _ => true
+  | .newOn _ | .edit _ => true
   | _ => false
 
 /-- user errors raised *before* the immutability check -/
